@@ -75,11 +75,24 @@ type Case struct {
 	Ops []Op `json:"ops"`
 	// Caps: what the recording reporters say about themselves (rec.CapsOf): advisory only
 	Caps int `json:"caps,omitempty"`
+	// the root's own prefix, separator (roots with a reporter only; empty: the default ".") and tags
+	RootPrefix string            `json:"rootPrefix,omitempty"`
+	Sep        string            `json:"sep,omitempty"`
+	RootTags   map[string]string `json:"rootTags,omitempty"`
 }
 
 func gen(t *rapid.T) Case {
 	c := Case{Mode: rapid.SampledFrom([]string{"plain", "cached", "both", "test"}).Draw(t, "mode")}
 	c.Caps = rapid.SampledFrom([]int{0, 0, 0, 1, 2, 3}).Draw(t, "caps")
+	if rapid.IntRange(0, 2).Draw(t, "rootcfg?") == 0 {
+		c.RootPrefix = rapid.SampledFrom([]string{"", "svc", "a.b", "x_"}).Draw(t, "rootPrefix")
+		if c.Mode != "test" {
+			c.Sep = rapid.SampledFrom([]string{"", ".", "_", ":", "/", "::"}).Draw(t, "sep")
+		}
+		if rapid.Bool().Draw(t, "roottags") {
+			c.RootTags = map[string]string{"env": "t", "dc": ""}
+		}
+	}
 	ns := rapid.IntRange(1, 3).Draw(t, "nscopes")
 	for i := 0; i < ns; i++ {
 		var s ScopeSpec
@@ -153,13 +166,17 @@ func run(c Case) (pbt.Outcome, error) {
 		opts.Reporter = &rec.Stats{L: log, Child: 1, Caps: rec.CapsOf(c.Caps)}
 		opts.CachedReporter = &rec.Cached{L: log, Child: 2, Caps: rec.CapsOf(c.Caps)}
 	}
+	opts.Prefix, opts.Separator, opts.Tags = c.RootPrefix, c.Sep, c.RootTags
 	if c.Mode == "test" {
-		ts = tally.NewTestScope("", nil)
+		ts = tally.NewTestScope(c.RootPrefix, c.RootTags)
 		root = ts
 	} else {
 		root, _ = tally.NewRootScope(opts, 0)
 	}
-	mroot := model.NewRoot("", "", nil, nil)
+	mroot := model.NewRoot(c.RootPrefix, c.Sep, c.RootTags, nil)
+	if c.RootPrefix != "" || c.Sep != "" || len(c.RootTags) > 0 {
+		out.Classes = append(out.Classes, "root-with-prefix-separator-or-tags")
+	}
 	scopes := make([]tally.Scope, len(c.Scopes))
 	mscopes := make([]model.Scope, len(c.Scopes))
 	for i, sp := range c.Scopes {
@@ -505,7 +522,7 @@ func run(c Case) (pbt.Outcome, error) {
 func TestC10(t *testing.T) {
 	pbt.Main(t, pbt.Prop[Case]{
 		ID: "C10", Name: "timers",
-		Rule: "(histories also Close the subscope of a timer and keep recording through old handles and through handles obtained from the closed scope afterwards: still exactly one delivery per Record) rapid-generated histories (1..16 ops) over 1..4 timers in 1..3 derived scopes: Record(d) with int64-extreme/zero/negative durations, report passes, timer stopwatches and duration-histogram stopwatches with 0..1.5 ms pauses (rationed), instrument.Call.Exec with succeeding/failing functions; plain reporter, cached reporter, both configured at once, or a reporter-less test scope. Oracle: exactly one timer delivery inside each Record call with d, name, tags (through the handle when cached); passes deliver no timers; snapshot shows all values in order; stopwatch value bracketed by harness monotonic clock readings taken around Start/Stop; Exec: one call, same error, one latency with the scope's name and tags, exactly one of success/error +1 (on a test scope both stopwatch flavours and Exec are read from the snapshot). Non-trivial: >=2 distinct timers used and a report pass between records (or snapshot mode). Distinct: FNV-64 of the case JSON.",
+		Rule: "(histories also Close the subscope of a timer and keep recording through old handles and through handles obtained from the closed scope afterwards: still exactly one delivery per Record) rapid-generated histories (1..16 ops) over 1..4 timers in 1..3 derived scopes: Record(d) with int64-extreme/zero/negative durations, report passes, timer stopwatches and duration-histogram stopwatches with 0..1.5 ms pauses (rationed), instrument.Call.Exec with succeeding/failing functions; plain reporter, cached reporter, both configured at once, or a reporter-less test scope; in a third of the cases the root has a prefix, tags and (with a reporter) a separator from {'.', '_', ':', '/', '::'}. Oracle: exactly one timer delivery inside each Record call with d, name, tags (through the handle when cached); passes deliver no timers; snapshot shows all values in order; stopwatch value bracketed by harness monotonic clock readings taken around Start/Stop; Exec: one call, same error, one latency with the scope's name and tags, exactly one of success/error +1 (on a test scope both stopwatch flavours and Exec are read from the snapshot). Non-trivial: >=2 distinct timers used and a report pass between records (or snapshot mode). Distinct: FNV-64 of the case JSON.",
 		Gen:  gen, Run: run, HangAfter: 20 * time.Second,
 	})
 }
